@@ -24,7 +24,6 @@ package lua
 //@ ensures  forall k int :: 0 <= k && k < rg.top ==> rg.array[k] == old(rg.array[k])
 //@ ensures  fresh(rg.array)
 //@ noraise
-//@ ensures  cap(rg.array) >= old(cap(rg.array))
 //@ modifies rg.array
 
 //@ func (*registry).resize [C01 C10 C12]
@@ -357,7 +356,7 @@ package lua
 //@ modifies ls.reg.array, ls.reg.top, ls.reg.array[*]
 //@ loop 1 invariant Inv_api(ls) && ls.reg == old(ls.reg) && reg == old(max(i2r(ls, index), base(ls))) && reg <= old(top(ls)) && reg - 1 <= top && top <= old(top(ls)) - 1
 //@ loop 1 invariant ls.reg.top == ite(top < old(top(ls)) - 1, old(top(ls)) + 1, old(top(ls)))
-//@ loop 1 invariant arrid(ls.reg.array) == old(arrid(ls.reg.array)) || fresh(ls.reg.array)
+//@ loop 1 invariant arrSameOrFresh(ls.reg) && cap(ls.reg.array) >= old(cap(ls.reg.array))
 //@ loop 1 invariant top == old(top(ls)) - 1 ==> cap(ls.reg.array) == old(cap(ls.reg.array))
 //@ loop 1 invariant forall k int :: top + 1 < k && k <= old(top(ls)) ==> ls.reg.array[k] == old(ls.reg.array[k-1])
 //@ loop 1 invariant forall k int :: 0 <= k && k <= top ==> ls.reg.array[k] == old(ls.reg.array[k])
@@ -373,7 +372,7 @@ package lua
 //@ ensures  arrSameOrFresh(ls.reg) && cap(ls.reg.array) >= old(cap(ls.reg.array))
 //@ modifies ls.reg.array, ls.reg.top, ls.reg.array[*]
 //@ loop 1 invariant Inv_api(ls) && ls.reg == old(ls.reg) && reg == old(i2r(ls, index)) && top == old(top(ls)) && ls.reg.top == top && base(ls) <= reg && reg < top - 1 && reg <= i
-//@ loop 1 invariant arrid(ls.reg.array) == old(arrid(ls.reg.array)) || fresh(ls.reg.array)
+//@ loop 1 invariant arrSameOrFresh(ls.reg) && cap(ls.reg.array) >= old(cap(ls.reg.array))
 //@ loop 1 invariant forall k int :: 0 <= k && k < reg ==> ls.reg.array[k] == old(ls.reg.array[k])
 //@ loop 1 invariant forall k int :: reg <= k && k < i ==> ls.reg.array[k] == old(ls.reg.array[k+1])
 //@ loop 1 invariant forall k int :: i <= k && k < top ==> ls.reg.array[k] == old(ls.reg.array[k])
